@@ -143,7 +143,7 @@ impl<'h> FindMatchesImpl<'h> {
             return;
         }
         let end = matched.span().end;
-        self.advance_to(end);
+        self.advance_to_relative(end);
     }
 
     /// Advances the given char_indices iterator to the end of the given match.
@@ -169,6 +169,13 @@ impl<'h> FindMatchesImpl<'h> {
     /// If the new position is less than the current position of the char_indices iterator, the
     /// function returns the current position of the char_indices iterator.
     pub(crate) fn advance_to(&mut self, position: usize) -> usize {
+        // The position is relative to the start of the haystack like the spans of the matches,
+        // the char_indices iterator works relative to the offset.
+        self.advance_to_relative(position.saturating_sub(self.offset)) + self.offset
+    }
+
+    /// Advance the char_indices iterator to the given position relative to the offset.
+    fn advance_to_relative(&mut self, position: usize) -> usize {
         if position < self.last_position {
             // The new position is less than the current position of the char_indices iterator.
             // The iterator is advanced by one character and the next character is not returned by
